@@ -346,6 +346,15 @@ async fn run(scn: Value) -> Value {
                     if let Some(hm) = step.get("hang_match") {
                         *b.hang_match.lock() = hm.as_str().map(|x| x.to_string());
                     }
+                    if step.get("reset_sessions").and_then(|x| x.as_bool()).unwrap_or(false) {
+                        b.reset_epoch.fetch_add(1, Ordering::SeqCst);
+                    }
+                    if let Some(se) = step.get("slow_exact") {
+                        // {"sql": ";", "ms": 600, "count": 1}
+                        *b.slow_exact.lock() = se.get("sql").and_then(|x| x.as_str()).map(|t| {
+                            (t.to_string(), se["ms"].as_u64().unwrap_or(500), se["count"].as_u64().unwrap_or(1))
+                        });
+                    }
                     mockpg::log_event(&log, json!({"who": "harness", "ev": "backend_mode", "b": step["b"], "mode": step["mode"]}));
                 }
             }
